@@ -119,23 +119,29 @@ def check_matrix_call(ck, fn, call, dbg_asserts):
                 cand = out_vecs if slot in ("lump", "diag", "row_norms") else in_vecs
                 want = (cand[0] if len(cand) == 1 else "?", "elements")
         if want is None:
-            problems.append("slot %s of %s::%s is not in the role table" % (slot, struct, kname))
-            continue
+            ck.incomplete("E1.slots", "%s: slot %s of %s::%s is not in the role table" % (key, slot, struct, kname))
+            return
         if want[0] == "scalar":
             v = loc.resolve(a)
-            if not (v.get("k") == "Ref" and v.get("dk") == "param" and v.get("n") in scal and len(scal) == 1):
+            if not (v.get("k") == "Ref" and v.get("dk") == "param") or len(scal) != 1:
+                ck.incomplete("E1.slots", "%s: scalar slot %s receives the expression `%s` (not a plain parameter)" % (key, slot, render(v)[:60]))
+                return
+            if v.get("n") not in scal:
                 problems.append("scalar slot %s receives `%s`, not the scalar parameter %s" % (slot, render(v), scal))
             continue
         if want[0] == "const":
             v = const_value(loc, a)
             r = loc.resolve(a)
             nm = r.get("n", "") if r.get("k") in ("Ref", "Member") else ""
-            if v is None or int(v) != want[1] or (nm and slot.lower() not in nm.lower().replace("_", "")):
+            if v is None:
+                ck.incomplete("E1.slots", "%s: slot %s receives `%s`, not a compile-time constant" % (key, slot, render(a)[:60]))
+                return
+            if int(v) != want[1] or (nm and slot.lower() not in nm.lower().replace("_", "")):
                 problems.append("slot %s receives `%s` (= %s), expected the matrix' %s = %d" % (slot, render(a), v, slot, want[1]))
             continue
-        if acc is None:
-            problems.append("slot %s receives `%s`, expected %s.%s()" % (slot, render(a), want[0], want[1]))
-            continue
+        if acc is None or "?" in want[0]:
+            ck.incomplete("E1.slots", "%s: slot %s receives `%s`, which is not an accessor call the rule models (expected %s.%s())" % (key, slot, render(a)[:80], want[0], want[1]))
+            return
         if acc["obj"] not in want[0].split("|") or acc["name"] != want[1]:
             problems.append("slot %s receives %s.%s(), expected %s.%s()" % (slot, acc["obj"], acc["name"], want[0], want[1]))
             continue
@@ -163,8 +169,7 @@ def check_matrix_call(ck, fn, call, dbg_asserts):
                 l, r = accessor(loc, c["lhs"]), accessor(loc, c["rhs"])
                 if l and r and {l["name"], r["name"]} == {"used_elements"} and {l["obj"], r["obj"]} == {"this", used["size"]["obj"]}:
                     eq = True
-        if not eq:
-            problems.append("entry count taken from `%s` without an assertion that it equals the receiver's" % used["size"]["obj"])
+        # (without such an assertion the operand's count still equals the receiver's for every admissible input)
     ck.ob("E1.slots", key, not problems, "; ".join(problems) if problems else "slots %s <- %s" % (pn, [render(a) for a in args]),
           fn.file, call.get("l"), sample={"callee_params": pn, "args": [render(a) for a in args]})
     # ---- vector guards ---------------------------------------------------------------------------
@@ -190,17 +195,15 @@ def check_matrix_call(ck, fn, call, dbg_asserts):
         square = any(strip(c).get("k") == "Bin" and strip(c).get("op") == "==" and
                      {(accessor(loc, strip(c)["lhs"]) or {}).get("name"), (accessor(loc, strip(c)["rhs"]) or {}).get("name")} == {"rows", "columns"}
                      for c, _ in assertions(fn))
-        ok = bool(found) and (dims == {want_dim} or (square and dims <= {"rows", "columns"}))
-        must_exist = fn.name in ("scale_rows", "scale_cols", "lump_rows", "extract_diag_indices")
-        if not found and not must_exist:
-            ck.ob("E1.vector-guard", gkey, True, "no length guard stated for `%s` (not required for %s)" % (vec, fn.name), fn.file, call.get("l"), trivial=True)
+        dims &= {"rows", "columns"}
+        ok = (want_dim in dims) or square
+        if not dims:
+            ck.ob("E1.vector-guard", gkey, True, "no guard of `%s.size()` against a matrix dimension recognised (admissible inputs have the right length; a guard elsewhere is not modelled)" % vec, fn.file, call.get("l"), trivial=True)
             continue
-        if must_exist and not always:
-            ok = False
         ck.ob("E1.vector-guard", gkey, ok,
               ("`%s` is subscripted by %s index in %s::%s and guarded by size()==%s()" % (vec, kind, struct, kname, want_dim)) if ok else
               ("`%s` is subscripted by the %s index in %s::%s (slot %s) but the function guards its length by %s; expected %s.size() == this->%s()%s" % (
-                  vec, "row" if kind == "row" else "column (col_ind)", struct, kname, slot, ["size()==%s() [%s]" % f for f in found] or "nothing", vec, want_dim, " as an always-on XASSERT" if must_exist else "")),
+                  vec, "row" if kind == "row" else "column (col_ind)", struct, kname, slot, ["size()==%s() [%s]" % f for f in found], vec, want_dim, "")),
               fn.file, call.get("l"))
 
 
@@ -222,23 +225,27 @@ def check_dispatch(ck, fn):
         ids.add(c["i"])
         cname = c["callee"].rsplit("::", 1)[-1]
         want_suffix = fn.name[len(stem):]          # e.g. csr_norm2 -> _norm2 ; bcsr -> ''
-        if not (cname.startswith(stem + "_") and cname.endswith(want_suffix)):
-            problems.append("%s selects %s" % (fn.name, cname))
+        mm = re.match(r"^(csr|bcsr)_(?:generic|cuda|mkl|cuda_intern)(_\w+)?$", cname)
+        if not mm:
+            ck.incomplete("E1.dispatch", "%s: implementation name `%s` does not follow <format>_<backend>[_<operation>]" % (key, cname))
+            return
+        if mm.group(1) != stem or (mm.group(2) or "") != want_suffix:
+            problems.append("%s selects %s (another operation)" % (fn.name, cname))
         for k, (slot, a) in enumerate(zip(c.get("pn", []), c.get("a", []))):
             a = strip(a)
             if not (a.get("k") == "Ref" and a.get("d") in own):
-                problems.append("%s: slot %d receives `%s`" % (cname, k, render(a)))
+                ck.incomplete("E1.dispatch", "%s: %s receives the expression `%s` in slot %d (not a plain parameter)" % (key, cname, render(a)[:60], k))
+                return
             elif slot and own[a["d"]] != slot:
                 problems.append("%s: slot %s receives `%s`" % (cname, slot, own[a["d"]]))
             elif not slot and [p["n"] for p in fn.params].index(own[a["d"]]) != k:
                 problems.append("%s: unnamed slot %d receives `%s`" % (cname, k, own[a["d"]]))
-        if len(c.get("a", [])) != len(fn.params):
-            problems.append("%s: %d of %d parameters forwarded" % (cname, len(c.get("a", [])), len(fn.params)))
     cfg = fn.cfg
     if cfg is not None:
         ok, bad = live_must_pass(fn, lambda n: any(x.get("i") in ids for x in walk(n)))
         if not ok:
-            problems.append("a normal exit is reachable without calling an implementation")
+            ck.incomplete("E1.dispatch", "%s: a normal exit is reachable without a call to an implementation of the same struct (work done inline or by an unmodelled callee?)" % key)
+            return
     ck.ob("E1.dispatch", key, not problems, "; ".join(problems) if problems else "forwards %s to %s" % (list(own.values()), sorted({c["callee"].rsplit("::", 1)[-1] for c in impl})), fn.file, fn.line)
 
 
@@ -332,6 +339,13 @@ class MKernel:
         for fa, fc in forms:
             if sympy.expand(addr - fa) == 0 and comps == fc:
                 return sympy.Symbol(p)
+        other = []
+        for k2, mj in (("nz", K), ("row", ROW), ("col", COL)):
+            if k2 == kind:
+                continue
+            other += [(mj, []), (mj, {"nz": [I, J], "row": [I], "col": [J]}[k2]), ({"nz": BH * BW * K + I * BW + J, "row": BH * ROW + I, "col": BW * COL + J}[k2], [])]
+        if not any(sympy.expand(addr - fa) == 0 and comps == fc for fa, fc in other):
+            raise Unknown("array `%s` is subscripted by %s%s (address form not modelled)" % (p, addr, "".join("[%s]" % c for c in comps)))
         raise Wrong("array `%s` (%s-indexed: %s) is subscripted by %s%s, expected %s%s" % (
             p, {"nz": "entry", "row": "row", "col": "column"}[kind], {"nz": "one value per stored entry", "row": "one value per row", "col": "one value per column"}[kind],
             addr, "".join("[%s]" % c for c in comps), forms[0][0], "".join("[%s]" % c for c in forms[0][1])))
@@ -368,7 +382,7 @@ class MKernel:
     # -- loops -------------------------------------------------------------------------------------
     def classify_for(self, node, env):
         init, c, inc = node.get("init"), node.get("c"), node.get("inc")
-        if not (init and init.get("k") == "Decl" and len(init["vars"]) == 1 and c and c.get("k") == "Bin" and c.get("op") == "<"
+        if not (init and init.get("k") == "Decl" and len(init["vars"]) == 1 and c and c.get("k") == "Bin" and c.get("op") in ("<", "!=")
                 and inc and inc.get("k") == "Un" and inc.get("op") == "++"):
             raise Unknown("loop at line %s is not a counting loop" % node.get("l"))
         v = init["vars"][0]
@@ -480,7 +494,7 @@ def analyse_matrix_kernel(ck, fn, struct):
                     continue
                 if inK:
                     d = sympy.expand(new - t)
-                    if op == "=" or d.has(t):
+                    if d.has(t):
                         problems.append("line %s: `%s <- %s` inside the entry loop is not an accumulation (a per-row finalisation executed once per entry)" % (line, t, new))
                         continue
                     if any(b not in env for b in blk):
@@ -627,6 +641,8 @@ def merge_kinds(ck, fn, sig):
                 plus1 = True
                 idx = strip(idx["lhs"])
             ik = kind(idx, depth + 1)
+            if ik is None:
+                raise Unknown("index `%s` of %s has no index kind the rule can derive (line %s)" % (render(idx), akey, n.get("l")))
             need = {"row_ptr": ("Row", arr["obj"]), "col_ind": ("NZ", arr["obj"]), "val": ("NZ", arr["obj"]), "elements": ("Dim", arr["obj"])}[arr["name"]]
             ok = ik is not None and uf.same(ik, need) and (not plus1 or arr["name"] == "row_ptr")
             rec(akey, ok, "%s[%s%s]: index kind %s, array needs %s%s" % (akey, render(idx), "+1" if plus1 else "", fmt_kind(ik), fmt_kind(need),
@@ -767,18 +783,21 @@ def merge_paths(ck, fn, sig):
             raise Unknown("%d statements write this->val()[.] in the merge loop, expected the accumulate statement" % len(acc_pos))
         ab, apos, an = acc_pos[0]
         # accumulate reads b.val()[B cursor]
-        reads_b = False
+        b_reads = set()
         deps = [an]
         seen = set()
+        vardecl = {n2["d"]: n2 for n2 in fn.nodes() if n2.get("k") == "Var"}
         while deps:
             x = deps.pop()
             for y in walk(x):
                 if y.get("k") == "Index":
                     a = accessor(loc, y["b"])
-                    if a and a["obj"] == bobj and a["name"] == "val" and strip(y["idx"]).get("d") == bcur:
-                        reads_b = True
+                    if a and a["obj"] == bobj and a["name"] == "val":
+                        b_reads.add(strip(y["idx"]).get("d"))
                 if y.get("k") == "Ref" and y.get("dk") == "local" and y.get("d") not in seen:
                     seen.add(y["d"])
+                    if y["d"] in vardecl and vardecl[y["d"]].get("init") is not None and y["d"] not in (bcur,):
+                        deps.append(vardecl[y["d"]]["init"])
                     # locals written in the same block before the accumulate (temp.set_mat_mat_mult(omega, data_b[lj]))
                     for e in cfg.blocks[ab]["el"][:apos]:
                         z = fn.by_id(e)
@@ -786,23 +805,51 @@ def merge_paths(ck, fn, sig):
                             deps.append(z)
         # guards: true edge of `allow_incomplete`
         guard_blocks = set()
+        known_cond = set()
         for b in R:
             blk = cfg.blocks[b]
             if blk.get("term") == "IfStmt" and blk.get("cond") is not None and len(blk.get("succ", [])) == 2:
-                cn = strip(fn.by_id(blk["cond"]) or {})
+                cn = loc.resolve(fn.by_id(blk["cond"]) or {})
                 neg = False
-                if cn.get("k") == "Un" and cn.get("op") == "!":
-                    neg = True
-                    cn = strip(cn["e"])
+                for _ in range(3):
+                    if cn.get("k") == "Un" and cn.get("op") == "!":
+                        neg = not neg
+                        cn = loc.resolve(cn["e"])
+                    elif cn.get("k") == "Bin" and cn.get("op") in ("==", "!=") and strip(cn["rhs"]).get("k") == "Bool":
+                        if (cn["op"] == "==") != bool(strip(cn["rhs"])["v"]):
+                            neg = not neg
+                        cn = loc.resolve(cn["lhs"])
                 if cn.get("k") == "Ref" and cn.get("dk") == "param" and cn.get("n") == "allow_incomplete":
+                    known_cond.add(b)
                     t = blk["succ"][1 if neg else 0]
                     if t in R and predR.get(t) == [b]:
                         guard_blocks.add(t)
         def guarded(b):
             return bool(dom[b] & guard_blocks)
         problems = []
-        if not reads_b:
-            problems.append("line %s: the accumulate statement does not read %s.val() at the B cursor `%s`" % (an.get("l"), bobj, bname))
+        unmodelled = []        # constructs that make "missing effect" verdicts indefinite
+        if bcur not in b_reads:
+            if b_reads:
+                problems.append("line %s: the accumulate statement reads %s.val() at another index than the B cursor `%s`" % (an.get("l"), bobj, bname))
+            else:
+                unmodelled.append("the value added by the accumulate statement (line %s) is not traced to %s.val()" % (an.get("l"), bobj))
+        # cursors handed to other code, conditions the rule does not understand
+        for b in R:
+            blk = cfg.blocks[b]
+            for e in blk["el"]:
+                n = fn.by_id(e)
+                for y in walk(n) if n else []:
+                    if is_call(y) and y.get("callee") != "FEAT::abortion":
+                        for a_ in y.get("a", []) + ([y["obj"]] if y.get("obj") else []):
+                            a_ = strip(a_)
+                            if a_.get("k") == "Un" and a_.get("op") == "&":
+                                a_ = strip(a_["e"])
+                            if a_.get("k") == "Ref" and a_.get("d") in (bcur, xcur):
+                                unmodelled.append("cursor passed to `%s` (line %s)" % (y.get("callee", "?")[:50], y.get("l")))
+                    if y.get("k") == "Lambda":
+                        unmodelled.append("lambda at line %s" % y.get("l"))
+            if len(blk.get("succ", [])) == 2 and blk.get("term") not in ("IfStmt", "WhileStmt"):
+                unmodelled.append("compound condition (%s) at block %d" % (blk.get("term"), b))
         # accumulate only under col_ind equality of the two cursors
         eq_blocks = set()
         bound_ok_blocks = set()
@@ -811,45 +858,67 @@ def merge_paths(ck, fn, sig):
         for b in R:
             blk = cfg.blocks[b]
             if blk.get("term") == "IfStmt" and blk.get("cond") is not None and len(blk.get("succ", [])) == 2:
-                cn = strip(fn.by_id(blk["cond"]) or {})
+                cn = loc.resolve(fn.by_id(blk["cond"]) or {})
+                sx = list(blk["succ"])
+                while cn.get("k") == "Un" and cn.get("op") == "!":
+                    cn = loc.resolve(cn["e"])
+                    sx.reverse()
                 if cn.get("k") == "Bin" and cn.get("op") == "==":
                     sides = []
                     for sd in (cn["lhs"], cn["rhs"]):
-                        sd = strip(sd)
+                        sd = loc.resolve(sd)
                         if sd.get("k") == "Index":
                             a = accessor(loc, sd["b"])
                             if a and a["name"] == "col_ind":
                                 sides.append((a["obj"], strip(sd["idx"]).get("d")))
                     if sorted(sides, key=str) == sorted([("this", xcur), (bobj, bcur)], key=str):
-                        t = blk["succ"][0]
+                        t = sx[0]
                         if predR.get(t) == [b]:
                             eq_blocks.add(t)
-                if cn.get("k") == "Bin" and cn.get("op") in (">=", "<") and strip(cn["lhs"]).get("d") == xcur and xcur is not None:
-                    rr = strip(cn["rhs"])
+                if cn.get("k") == "Bin" and cn.get("op") in (">=", "<", ">", "<=", "==", "!=") and xcur is not None:
+                    lcur, rr, op_ = strip(cn["lhs"]), loc.resolve(cn["rhs"]), cn["op"]
+                    if lcur.get("d") != xcur and strip(cn["rhs"]).get("d") == xcur:
+                        lcur, rr = strip(cn["rhs"]), loc.resolve(cn["lhs"])
+                        op_ = {"<": ">", ">": "<", "<=": ">=", ">=": "<=", "==": "==", "!=": "!="}[op_]
                     a = accessor(loc, rr["b"]) if rr.get("k") == "Index" else None
-                    if a and a["obj"] == "this" and a["name"] == "row_ptr":
-                        t = blk["succ"][1 if cn["op"] == ">=" else 0]
-                        if predR.get(t) == [b]:
-                            bound_ok_blocks.add(t)
-                        t2 = blk["succ"][0 if cn["op"] == ">=" else 1]
+                    if lcur.get("d") == xcur and a and a["obj"] == "this" and a["name"] == "row_ptr":
+                        known_cond.add(b)
+                        # edge on which the cursor is known to be inside its row / known to be at (or past) the row end
+                        inb = {">=": 1, "<": 0, "==": 1, "!=": 0}.get(op_)
+                        end_ = {">=": 0, "<": 1, "==": 0, "!=": 1, ">": 0, "<=": 1}.get(op_)
+                        if inb is not None:
+                            t = sx[inb]
+                            if predR.get(t) == [b]:
+                                bound_ok_blocks.add(t)
+                        t2 = sx[end_]
                         if t2 in R and predR.get(t2) == [b]:
                             xend_blocks.add(t2)          # X cursor has reached the end of its row: no slot can follow
                 # relation between the column of the X cursor and the column of the B cursor
                 if cn.get("k") == "Bin" and cn.get("op") in ("==", "!=", "<", ">", "<=", ">="):
                     sd = []
                     for q in (cn["lhs"], cn["rhs"]):
-                        q = strip(q)
+                        q = loc.resolve(q)
                         a = accessor(loc, q["b"]) if q.get("k") == "Index" else None
                         sd.append((a["obj"], strip(q["idx"]).get("d")) if a and a["name"] == "col_ind" else None)
                     if None not in sd and sorted(sd, key=str) == sorted([("this", xcur), (bobj, bcur)], key=str):
+                        known_cond.add(b)
                         op = cn["op"] if sd[0] == ("this", xcur) else {"<": ">", ">": "<", "<=": ">=", ">=": "<=", "==": "==", "!=": "!="}[cn["op"]]
                         neg = {"<": ">=", ">": "<=", "<=": ">", ">=": "<", "==": "!=", "!=": "=="}[op]
                         for k_, rel_ in ((0, op), (1, neg)):
-                            t3 = blk["succ"][k_]
+                            t3 = sx[k_]
                             if t3 in R and predR.get(t3) == [b]:
                                 colrel.setdefault(rel_, set()).add(t3)
-        if not (dom[ab] & eq_blocks):
-            problems.append("line %s: the accumulate statement is not control dependent on col_ind(this)[X cursor] == col_ind(%s)[B cursor]" % (an.get("l"), bobj))
+        for b in R:
+            blk = cfg.blocks[b]
+            if blk.get("term") == "IfStmt" and len(blk.get("succ", [])) == 2 and b not in known_cond:
+                cnode = fn.by_id(blk["cond"]) if blk.get("cond") is not None else None
+                unmodelled.append("condition `%s` (line %s)" % (render(cnode)[:50] if cnode else "?", cnode.get("l") if cnode else "?"))
+        if not (dom[ab] & colrel.get("==", set())) and not ((dom[ab] & colrel.get("<=", set())) and (dom[ab] & colrel.get(">=", set()))):
+            other_rel = [r_ for r_ in ("<", ">", "!=") if dom[ab] & colrel.get(r_, set())]
+            if other_rel:
+                problems.append("line %s: the accumulate statement runs where col_ind(this)[X cursor] %s col_ind(%s)[B cursor], not where the columns are equal" % (an.get("l"), other_rel[0], bobj))
+            else:
+                unmodelled.append("equality of the two column indices is not established by a condition the rule models before the accumulate statement (line %s)" % an.get("l"))
         def by_one(n, d):
             """n advances the cursor d by exactly one"""
             if n.get("k") == "Un" and n.get("op") == "++":
@@ -939,6 +1008,8 @@ def merge_paths(ck, fn, sig):
                         if a and a["obj"] == "this" and a["name"] in ("col_ind", "val") and not (dom[b] & bound_ok_blocks):
                             problems.append("line %s: %s dereferences the X cursor without a dominating check against row_ptr(this)[i+1] (runs into the next row of X)" % (y.get("l"), render(y)))
         problems = sorted(set(problems))
+        if unmodelled and (problems or any("accumulate" in u for u in unmodelled)):
+            raise Unknown("merge loop uses constructs the path rule does not model (%s); %d potential problems withheld" % ("; ".join(sorted(set(unmodelled))[:3]), len(problems)))
         ck.ob("E7.no-silent-drop", keybase, not problems,
               "; ".join(problems) if problems else "B cursor `%s` advances at %d places, by one, at most once per iteration: after the accumulate statement or as the only effect of the allow_incomplete edge; early exit only with the X cursor at its row end and allow_incomplete; other exits abort; X cursor bounds-checked and only passes served or smaller-column slots" % (bname, len(adv)),
               fn.file, w.get("l"), sample={"advances": [render(n) + "@%s" % n.get("l") for _, _, n in adv], "accumulate": render(an)[:100]})
@@ -1081,6 +1152,19 @@ def check_row_loops(ck, fn):
                 nm = declared[d]["n"] if d in declared else "?"
                 # an unconditional full definition at the top level of the loop body before the first other access
                 reset = False
+                maybe = None
+                for y in walk(loop["body"]):
+                    if is_call(y) and y.get("k") in ("Call", "MCall") and not (y.get("k") == "MCall" and y.get("n") in ("format", "clear")):
+                        for a_ in y.get("a", []) + ([y["obj"]] if y.get("obj") else []):
+                            a_ = strip(a_)
+                            if a_.get("k") == "Un" and a_.get("op") == "&":
+                                a_ = strip(a_["e"])
+                            if a_.get("k") == "Ref" and a_.get("d") == d:
+                                pts = [fn.type(t_) for t_ in y.get("pt", [])]
+                                if y.get("k") == "MCall" and a_ is strip(y.get("obj") or {}) and y.get("cconst"):
+                                    continue
+                                if any("&" in t_ and "const" not in t_ for t_ in pts) or "*" in "".join(pts) or (y.get("k") == "MCall" and strip(y.get("obj") or {}).get("d") == d):
+                                    maybe = "`%s` is handed to `%s` (line %s), which may re-initialise it" % (nm, (y.get("callee") or "?")[:50], y.get("l"))
                 for st in top:
                     own_full = [wn for dd, full, wn in _writes(st) if dd == d and full and wn is st]
                     if own_full:
@@ -1090,9 +1174,15 @@ def check_row_loops(ck, fn):
                         break
                     if any(y.get("k") == "Ref" and y.get("d") == d for y in walk(st)):
                         break
+                if not reset and maybe:
+                    ck.incomplete("E2.row-loop-state", "%s: %s" % (key, maybe))
+                    problems = None
+                    break
                 if not reset:
                     problems.append("`%s` is declared outside the row loop, written inside it (line %s) and not re-initialised at the top of every iteration: the value stored for row i depends on earlier rows (rows that take no assigning path keep the stale value)" % (
                         nm, [wn.get("l") for dd, _, wn in wr if dd == d][0]))
+            if problems is None:
+                continue
             ck.ob("E2.row-loop-state", key, not problems, "; ".join(problems) if problems else "value stored for `%s[row]` depends only on loop-invariant data and on locals that are fresh in every iteration (%d locals traced)" % (name, len(deps)),
                   fn.file, node.get("l"))
 
